@@ -916,7 +916,7 @@ Theorem C03_acc_step_is_bstep :
        get_thread e me = Some t0 ->
        get_atomic e a = Some s ->
        GoodS (s, pclocks e) ->
-       SideOK a e me ->
+       SideOK a e me m ->
        exec_micro e me m = MOk e1 ->
        exists (s1 : atomic_state) (b : bop),
          access_bop b /\
@@ -1121,4 +1121,156 @@ Theorem C03_CoRR_CoWR_steps2 :
          (forall l : list nat, match_rmw_to_stores s' = Some l -> ~ In i l).
 Proof. exact CoRR_CoWR_steps2. Qed.
 Print Assumptions C03_CoRR_CoWR_steps2.
+
+
+Require Import LV.Base LV.VV LV.VVFacts LV.Path LV.PathSpec LV.PathTerm LV.PathDistinct LV.PathApi LV.Prog LV.Objects LV.Exec LV.Atomic LV.Ops LV.Check LV.AtomicFacts LV.AtomicCoherence LV.AtomicCoRR LV.AtomicClosure LV.AtomicBridge LV.NotifyFacts LV.ClockFacts LV.SyncMono LV.ExecFacts LV.AtomicRun LV.AtomicRun2 LV.AtomicRun3.
+
+(* THE REPLAY HYPOTHESIS (AtomicRun3.v). The clause says: the index a replayed Load entry answers is in the candidate list the access computes (for the non-empty list that access itself hands to choose_store -- an earlier formulation quantified over every list and was unsatisfiable, which made the run-level theorems vacuous; found while trying to discharge it, corrected in AtomicRun/AtomicRun2). Discharged outright for the first iteration of every program and for everything after the stored prefix of any iteration; for replayed entries reduced to `the recorded entry equals this access's candidate list` (RecordedOK), which a Coq function checks over a whole exploration (sound: explore_rec_sound) -- the general proof needs prefix determinism of iterations (a two-run simulation), which is not done *)
+(* once the stored prefix is consumed it stays consumed along the steps *)
+Theorem C03_steps_traversed :
+  forall e e' : exec,
+       steps e e' -> is_traversed (e_path e) = true -> is_traversed (e_path e') = true.
+Proof. exact steps_traversed. Qed.
+Print Assumptions C03_steps_traversed.
+
+(* a freshly pushed Load entry answers a candidate, records exactly the candidate list, position 0 *)
+Theorem C03_fresh_load_is_candidate :
+  forall (e : exec) (l : list nat) (e2 : exec) (idx : nat),
+       is_traversed (e_path e) = true ->
+       choose_store e (Some l) = (e2, inl idx) ->
+       l <> [] ->
+       In idx l /\
+       nth_error (branches (e_path e2)) (pos (e_path e)) =
+       Some (ELoad {| l_vals := l; l_pos := 0; l_ex := exploring (e_path e) |}) /\
+       pos (e_path e2) = S (pos (e_path e)).
+Proof. exact fresh_load_is_candidate. Qed.
+Print Assumptions C03_fresh_load_is_candidate.
+
+(* THE FIRST ITERATION OF EVERY PROGRAM: the invariant of every declared atomic holds in every reachable state, with the ring hypothesis only (and max_threads <= MAX_THREADS) *)
+Theorem C03_first_iteration_goodAt :
+  forall (p : prog) (a : nat) (s0 : atomic_state) (e : exec),
+       max_threads (p_cfg p) <= MAX_THREADS ->
+       get_atomic (init_exec p (initial_path (p_cfg p))) a = Some s0 ->
+       RunOK3 p (initial_path (p_cfg p)) a ->
+       steps (init_exec p (initial_path (p_cfg p))) e -> GoodAt a e.
+Proof. exact first_iteration_goodAt. Qed.
+Print Assumptions C03_first_iteration_goodAt.
+
+(* hence CoRR / CoWR / RMW coherence over the first iteration of every program *)
+Theorem C03_first_iteration_coherence :
+  forall (p : prog) (a : nat) (s0 : atomic_state) (e e' : exec) (s : atomic_state)
+         (t i j : nat),
+       max_threads (p_cfg p) <= MAX_THREADS ->
+       get_atomic (init_exec p (initial_path (p_cfg p))) a = Some s0 ->
+       RunOK3 p (initial_path (p_cfg p)) a ->
+       steps (init_exec p (initial_path (p_cfg p))) e ->
+       steps e e' ->
+       get_atomic e a = Some s ->
+       t < MAX_THREADS ->
+       i < at_cnt s ->
+       j < at_cnt s ->
+       vv_lt (mo s i) (mo s j) = true ->
+       is_seen_by_current (st_seen (get_store s j)) (caus_of e t) = true ->
+       exists s' : atomic_state,
+         get_atomic e' a = Some s' /\
+         (forall (ly : option nat) (o : ord) (l : list nat),
+          match_load_to_stores s' t (vv_inc (caus_of e' t) t) ly o = Some l -> ~ In i l) /\
+         (forall l : list nat, match_rmw_to_stores s' = Some l -> ~ In i l).
+Proof. exact first_iteration_coherence. Qed.
+Print Assumptions C03_first_iteration_coherence.
+
+(* in any iteration every access after the stored prefix satisfies the clause *)
+Theorem C03_after_prefix_ReplayAt :
+  forall (a : nat) (e0 e : exec) (me : nat) (t : thread) (m : micro) (rest : list micro),
+       is_traversed (e_path e0) = true ->
+       steps e0 e ->
+       nth_error (e_threads e) me = Some t ->
+       t_cont t = m :: rest ->
+       ReplayAt a (upd_thread e me (fun t0 : thread => th_set_cont t0 rest)) me m.
+Proof. exact after_prefix_ReplayAt. Qed.
+Print Assumptions C03_after_prefix_ReplayAt.
+
+(* a Load entry of the stack is never modified during an iteration *)
+Theorem C03_steps_load_entry_fixed :
+  forall (e e' : exec) (i : nat) (ld : load),
+       steps e e' ->
+       nth_error (branches (e_path e)) i = Some (ELoad ld) ->
+       nth_error (branches (e_path e')) i = Some (ELoad ld).
+Proof. exact steps_load_entry_fixed. Qed.
+Print Assumptions C03_steps_load_entry_fixed.
+
+(* Path::step keeps the values of every Load entry it keeps and advances the last one inside its list *)
+Theorem C03_step_load_entry :
+  forall (p p' : path) (i : nat) (ld' : load),
+       step p = Some p' ->
+       nth_error (branches p') i = Some (ELoad ld') ->
+       exists ld : load,
+         nth_error (branches p) i = Some (ELoad ld) /\
+         l_vals ld' = l_vals ld /\
+         (ld' = ld \/
+          S i = length (branches p') /\ l_pos ld' = S (l_pos ld) /\ l_pos ld' < length (l_vals ld')).
+Proof. exact step_load_entry. Qed.
+Print Assumptions C03_step_load_entry.
+
+(* if the entry under the cursor records this access's candidate list, the replayed answer is a candidate *)
+Theorem C03_recorded_ReplayAt :
+  forall (a : nat) (e : exec) (me : nat) (m : micro), Recorded a e me m -> ReplayAt a e me m.
+Proof. exact recorded_ReplayAt. Qed.
+Print Assumptions C03_recorded_ReplayAt.
+
+(* the run-level theorem under RecordedOK and the ring hypothesis *)
+Theorem C03_recorded_run_goodAt :
+  forall (p : prog) (pa : path) (a : nat) (s0 : atomic_state) (e : exec),
+       max_threads (p_cfg p) <= MAX_THREADS ->
+       get_atomic (init_exec p pa) a = Some s0 ->
+       RecordedOK p pa a -> RunOK3 p pa a -> steps (init_exec p pa) e -> GoodAt a e.
+Proof. exact recorded_run_goodAt. Qed.
+Print Assumptions C03_recorded_run_goodAt.
+
+(* the checker is sound: if explore_rec answers (_, _, true, true), RecordedOK holds for every path of the exploration *)
+Theorem C03_explore_rec_sound :
+  forall (a ifuel fuel : nat) (p : prog) (pa0 : path) (its n its' n' : nat),
+       explore_rec ifuel fuel p pa0 its n true = (its', n', true, true) ->
+       forall pa : path,
+       Explored fuel p pa0 pa ->
+       RecordedOK p pa a /\
+       (exists (k its1 n1 : nat) (e : exec),
+          k <= ifuel /\
+          explore_rec (S k) fuel p pa its1 n1 true = (its', n', true, true) /\
+          fst (fst (run_rec fuel (init_exec p pa) n1 true)) = (e, IterDone)).
+Proof. exact explore_rec_sound. Qed.
+Print Assumptions C03_explore_rec_sound.
+
+(* the begin path of every record of Builder::check is such a path *)
+Theorem C03_check_records_Explored :
+  forall (ifuel fuel : nat) (p : prog) (recs : list iter_record) (fin : run_end)
+         (ck : option path) (r : iter_record),
+       check ifuel fuel p = (recs, fin, ck) ->
+       In r recs -> Explored fuel p (initial_path (p_cfg p)) (ir_begin r).
+Proof. exact check_records_Explored. Qed.
+Print Assumptions C03_check_records_Explored.
+
+(* for a program whose exploration passes the checker: the invariant in every reachable state of every iteration *)
+Theorem C03_explored_run_goodAt :
+  forall (a ifuel fuel : nat) (p : prog) (its' n' : nat) (pa : path) 
+         (s0 : atomic_state) (e : exec),
+       max_threads (p_cfg p) <= MAX_THREADS ->
+       explore_rec ifuel fuel p (initial_path (p_cfg p)) 0 0 true = (its', n', true, true) ->
+       Explored fuel p (initial_path (p_cfg p)) pa ->
+       get_atomic (init_exec p pa) a = Some s0 ->
+       RunOK3 p pa a -> steps (init_exec p pa) e -> GoodAt a e.
+Proof. exact explored_run_goodAt. Qed.
+Print Assumptions C03_explored_run_goodAt.
+
+(* computed: store/load race, 25 iterations, 28 replayed loads, all recorded entries agree *)
+Theorem C03_p_sl_checked :
+  explore_rec 2000 2000 p_sl (initial_path cfgT) 0 0 true = (25, 28, true, true).
+Proof. exact p_sl_checked. Qed.
+Print Assumptions C03_p_sl_checked.
+
+(* computed: message passing with release store, RMW and relaxed loads, 72 iterations, 181 replayed loads *)
+Theorem C03_p_mp_checked :
+  explore_rec 2000 2000 p_mp (initial_path cfgT) 0 0 true = (72, 181, true, true).
+Proof. exact p_mp_checked. Qed.
+Print Assumptions C03_p_mp_checked.
 
